@@ -151,6 +151,9 @@ class VariantJob:
         split_t = self.modname in T_SIGN_SPLIT_OPS
         temps = [v[2] for v in self.vs if len(v) >= 3 and (v[2] is TemporalTau or split_t)]
         tcs = list(itertools.product(("nonneg", "neg"), repeat=len(temps)))
+        if split_t and self.prop not in ("C01", "C02"):
+            # properties other than C01/C02 only quantify over forward (t >= 0) vectors for these operations
+            tcs = [tc for tc in tcs if all(c == "nonneg" for k, c in zip(temps, tc) if k is TemporalT)]
         for cname, kinds in sc:
             for tc in tcs:
                 label = cname
